@@ -77,6 +77,38 @@ func exprMentions(p *Prog, n ast.Node, obj types.Object) bool {
 
 func returnsMention(p *Prog, cc *ast.CommClause, pred func(ast.Expr) bool) bool {
 	ok := false
+	// the arm may leave its result in a local that the function returns after the select (single-exit style)
+	for _, st := range cc.Body {
+		as, isAs := st.(*ast.AssignStmt)
+		if !isAs || len(as.Lhs) != len(as.Rhs) {
+			continue
+		}
+		for i, rhs := range as.Rhs {
+			v := identVar(p, as.Lhs[i])
+			if v == nil || !pred(rhs) {
+				continue
+			}
+			// a return after the select that hands v out, reached from this arm without v being overwritten
+			if fn := p.EnclosingFunc(cc); fn != nil {
+				c := p.CFG(fn)
+				if pt, okP := c.PointOf(as); okP {
+					res := c.FindPath(PathQuery{From: Point{pt.B, pt.I + 1}, ExitIsTarget: true, IsBarrier: func(nd ast.Node, _ Point) bool {
+						if rs, isR := nd.(*ast.ReturnStmt); isR {
+							for _, e := range rs.Results {
+								if mentionsVars(p, e, map[*types.Var]bool{v: true}) {
+									return true
+								}
+							}
+						}
+						return false
+					}})
+					if !res.Found {
+						ok = true
+					}
+				}
+			}
+		}
+	}
 	for _, st := range cc.Body {
 		ast.Inspect(st, func(x ast.Node) bool {
 			if ret, isRet := x.(*ast.ReturnStmt); isRet {
@@ -111,6 +143,7 @@ func checkC13(p *Prog, r *Report) {
 	r.rule("C13.W5d", "a Read that consumed data passes the read token on before returning whenever data remains readable (len(bufptr) > 0 or PeekSize() > 0)", 3)
 	r.rule("C13.W6", "die is closed only inside dieOnce.Do; a second Close returns an error; socket errors are stored before their channel is closed", 5)
 	r.rule("C13.W7", "Read tests buffered data before blocking on a select that contains die; WriteBuffers passes a non-blocking die/error test before every kcp.Send", 2)
+	r.rule("C13.W14", "permanent conditions are broadcast: the channels that announce them (die, chSocketReadError, chSocketWriteError of sessions and listener) are closed, never sent on — a token sent on such a channel wakes one of the blocked callers and is gone for every later one", 5)
 	r.rule("C13.W13", "after Close, Read first drains what had been received: the unread tail of a partially read message is modified by Read alone (= C01.S10 ownership half)", 2)
 	r.rule("C13.W12", "no deadlock by lock order: the relation 'acquired while held' between the mutex classes of the package (interprocedural: held at a call site, acquired anywhere below it) has no cycle — a goroutine blocked in such a cycle, and every Read/Write/Accept/Close waiting for one of its locks, never wakes", 1)
 	r.rule("C13.W11", "every transmit function reports a failed socket write: from err != nil of WriteTo/WriteBatch every path calls notifyWriteError, or the error is returned and no caller discards it", 2)
@@ -122,6 +155,7 @@ func checkC13(p *Prog, r *Report) {
 	checkWriteErrorReporting(p, r)
 	checkLockOrder(p, r, "C13.W12")
 	checkCarryOverOwnedByRead(p, r, "C13.W13")
+	checkPermanentConditionsBroadcast(p, r)
 
 	// ---- wait functions
 	var waits []*waitFunc
@@ -641,10 +675,61 @@ func (p *Prog) isWakeNode(n ast.Node, ch *types.Var, notif map[*types.Func]bool)
 			if f := p.Callee(call); f != nil && notif[f] {
 				found = true
 			}
+			// postEvent(s.chReadEvent): a helper that leaves a token in the channel it is given
+			if f := p.Callee(call); f != nil && f.Pkg() == p.Types {
+				for i, a := range call.Args {
+					if t := p.Term(a); t.Op == "fld" && t.Obj == types.Object(ch) && p.paramNotifier(p.FuncOf(f), i) {
+						found = true
+					}
+				}
+			}
 		}
 		return true
 	})
 	return found
+}
+
+// paramNotifier: on every path h performs a non-blocking send (a select with default) on its idx-th parameter.
+func (p *Prog) paramNotifier(h *FuncInfo, idx int) bool {
+	if h == nil || h.Body == nil {
+		return false
+	}
+	key := fmt.Sprintf("paramNotifier:%s:%d", h.Name, idx)
+	if v, ok := p.memo[key]; ok {
+		return v.(bool)
+	}
+	p.memo[key] = false
+	pv, _ := h.paramObj(p, idx).(*types.Var)
+	res := false
+	if pv != nil {
+		c := p.CFG(h)
+		has := false
+		isSend := func(n ast.Node, _ Point) bool {
+			ss, ok := n.(*ast.SendStmt)
+			if !ok {
+				return false
+			}
+			if t := p.Term(ss.Chan); !(t.Op == "var" && t.Obj == types.Object(pv)) {
+				return false
+			}
+			if cc, ok := p.parents[ss].(*ast.CommClause); ok {
+				if sel, ok := p.parents[p.parents[cc]].(*ast.SelectStmt); ok && selectHasDefault(sel) {
+					has = true
+					return true
+				}
+			}
+			return false
+		}
+		for _, pt := range c.AllPoints() {
+			isSend(pt.Node(), pt)
+		}
+		if has {
+			r := c.FindPath(PathQuery{From: Point{c.Entry(), 0}, ExitIsTarget: true, IsBarrier: isSend})
+			res = !r.Found
+		}
+	}
+	p.memo[key] = res
+	return res
 }
 
 func checkDeadlineStores(p *Prog, r *Report, waits []*waitFunc) {
@@ -1270,6 +1355,30 @@ func checkNotifyNonBlocking(p *Prog, r *Report) {
 	n := 0
 	for _, fi := range p.funcs {
 		for _, co := range p.Effects(fi).ChanOps {
+			if co.Send && co.Chan.Op == "var" && fi.Obj != nil {
+				// a send on a channel parameter: counted for every event channel the helper is called with
+				for i := 0; ; i++ {
+					o := fi.paramObj(p, i)
+					if o == nil {
+						break
+					}
+					if o != co.Chan.Obj {
+						continue
+					}
+					for _, s := range p.CallsTo(fi.Obj) {
+						if i >= len(s.Args) || s.Args[i].Op != "fld" {
+							continue
+						}
+						nm := s.Args[i].Obj.Name()
+						if nm != "chReadEvent" && nm != "chWriteEvent" && nm != "chPrependNotify" {
+							continue
+						}
+						n++
+						r.check(co.NonBlock, "C13.W8", rootFuncInfo(s.Fn).Name, p.Pos(s.Call), "send on "+nm+" through "+fi.Name, "in a select with default", "a notify blocks when the token is already posted")
+					}
+				}
+				continue
+			}
 			if !co.Send || co.Chan.Op != "fld" {
 				continue
 			}
@@ -1771,4 +1880,53 @@ func (p *Prog) isOnceFlag(fi *FuncInfo, v *types.Var, depth int) bool {
 		rv, _ = p.Info.Defs[h.Decl.Type.Results.List[0].Names[0]].(*types.Var)
 	}
 	return okAll && rv != nil && p.isOnceFlag(h, rv, depth+1)
+}
+
+// checkPermanentConditionsBroadcast: C13.W14.
+func checkPermanentConditionsBroadcast(p *Prog, r *Report) {
+	for _, tn := range []string{"UDPSession", "Listener"} {
+		st := structOf(p.Named(tn).Underlying())
+		for i := 0; i < st.NumFields(); i++ {
+			f := st.Field(i)
+			if _, isChan := f.Type().Underlying().(*types.Chan); !isChan {
+				continue
+			}
+			name := f.Name()
+			if !(name == "die" || (strings.HasPrefix(name, "chSocket") && strings.HasSuffix(name, "Error"))) {
+				continue
+			}
+			nClose, nSend := 0, 0
+			var sendPos string
+			for _, fi := range p.funcs {
+				if fi.Body == nil {
+					continue
+				}
+				inspectBody(fi, func(x ast.Node) bool {
+					switch y := x.(type) {
+					case *ast.CallExpr:
+						if p.BuiltinName(y) == "close" && len(y.Args) == 1 {
+							if t := p.Term(y.Args[0]); t.Op == "fld" && t.Obj == types.Object(f) {
+								nClose++
+							}
+						}
+					case *ast.SendStmt:
+						if t := p.Term(y.Chan); t.Op == "fld" && t.Obj == types.Object(f) {
+							nSend++
+							sendPos = p.Pos(y)
+						}
+					}
+					return true
+				})
+			}
+			construct := tn + "." + name + " announces by close"
+			switch {
+			case nSend > 0:
+				r.bad("C13.W14", tn, sendPos, construct, "a value is sent on "+tn+"."+name+": one blocked caller receives it and every other one (and every later call) keeps waiting — the condition it announces is permanent and must reach all of them", "")
+			case nClose == 0:
+				r.bad("C13.W14", tn, "-", construct, tn+"."+name+" is never closed: nobody waiting on it is ever told", "")
+			default:
+				r.ok("C13.W14", tn, "-", construct, fmt.Sprintf("closed at %d site(s), never sent on", nClose))
+			}
+		}
+	}
 }
